@@ -12,7 +12,13 @@ ConnEnd was delivered is in LockServer.Locks(); holds of sessions that have not 
 session at any time and exactly once after settling; nothing is held after every session has ended; no panic, no deadlock.
 A leak seen here is reported as a violation with the scenario as replay — it is NOT attributed to the known finding F-LEAK
 (a gRPC-level race): the unchanged REST layer makes session end wait for the in-flight request (session mutex).
-Coverage: ctx.coverage["ties"]["T2-rest-session-end"].   Replay: restsess.replay(ctx, path) -> True if handled."""
+Coverage: ctx.coverage["ties"]["T2-rest-session-end"].   Replay: restsess.replay(ctx, path) -> True if handled.
+
+WINDOW RUNS (tie "T2-rest-window", shared by C20 and C06; harness/restdiff/window_on_test.go): the instrumented handler parks at
+every INNER yield point (before every mutex acquisition and timer-manager call found by text in net/rest/rest.go, inside the
+server call, at the entry of HandleConn(ConnEnd)) and the harness explores the interleavings of request / DELETE / idle-expiry
+threads itself (preemption-bounded depth-first search, fresh handler per execution, lock aware). `window_oracle` below judges the
+real observations, model independent:  window_stage(ctx, sb=None) runs and reports;  replay kind "window"."""
 import copy
 import json
 import random
@@ -215,7 +221,8 @@ def run_property(ctx):
     for r in rr["results"]:
         if r.get("id") == "v-c06-expiry-vs-inflight" and isinstance(ctx.coverage.get("samples"), list) and len(ctx.coverage["samples"]) < 6:
             ctx.coverage["samples"].append({"rest_session_end_scenario": rr["scenarios"].get(r["id"]), "result": r})
-    return dict(ok_build=True, executed=n, failing=nf)
+    w = window_stage(ctx)
+    return dict(ok_build=True, executed=n + w["executed"], failing=nf + w["failing"])
 
 
 def replay(ctx, path):
@@ -224,6 +231,8 @@ def replay(ctx, path):
         d = json.loads(Path(path).read_text())
     except Exception:  # noqa
         return False
+    if d.get("kind") == "window":
+        return replay_window(ctx, d)
     if d.get("kind") != "rest-session-end":
         return False
     sc = d.get("scenario")
@@ -254,4 +263,301 @@ def replay(ctx, path):
                       "the replayed scenario still fails (%d of %d runs)" % (nbad, len(rr["results"])), name="replayed_restsess.json")
     else:
         print("verdict: all %d runs pass on this tree" % len(rr["results"]))
+    return True
+
+
+# ------------------------------------------------------------------------------------------------------- window runs
+
+WTIE = "T2-rest-window"
+
+
+def window_scenarios(seed, quick=True):
+    """request / DELETE / idle expiry on one session, alone and next to a session that is left alone; preemption bound 2"""
+    def T(k, s, act):
+        return {"k": k, "s": s, "act": act}
+    out = []
+
+    def sc(name, sessions, threads, fires=(), keep=False, noclear=False, cap=120, bound=2):
+        out.append({"id": name, "sessions": sessions, "threads": threads, "fires": list(fires), "keep": keep, "noclear": noclear, "bound": bound,
+                    "cap": cap if quick else cap * 8, "seed": seed})
+    sc("req-del", 1, [T(1, 0, "req"), T(2, 0, "del")])
+    sc("req-fire", 1, [T(1, 0, "req")], fires=[0])
+    sc("req-del-fire", 1, [T(1, 0, "req"), T(2, 0, "del")], fires=[0], cap=260)
+    sc("2req-del", 1, [T(1, 0, "req"), T(2, 0, "req"), T(3, 0, "del")], cap=160)
+    sc("2req-fire", 1, [T(1, 0, "req"), T(2, 0, "req")], fires=[0], cap=260)
+    sc("del-del", 1, [T(1, 0, "del"), T(2, 0, "del")])
+    sc("del-fire", 1, [T(1, 0, "del")], fires=[0])
+    sc("req-del-keep", 2, [T(1, 0, "req"), T(2, 0, "del")], keep=True)
+    sc("req-fire-keep", 2, [T(1, 0, "req")], fires=[0], keep=True)
+    # (two independent sessions commute: several thousand interleavings within the bound; a capped sample, order drawn from the seed)
+    sc("two-sessions", 2, [T(1, 0, "req"), T(2, 0, "del"), T(3, 1, "req")], fires=[1], cap=160)
+    sc("req-del-noclear", 1, [T(1, 0, "req"), T(2, 0, "del")], noclear=True, cap=60)
+    sc("req-fire-noclear", 1, [T(1, 0, "req")], fires=[0], noclear=True, cap=60)
+    return out
+
+
+def window_oracle(r):
+    """C20 / C06 on the real observations of ONE executed interleaving (model independent) -> [(rule, text)]"""
+    bad = []
+    if r.get("setup_fail"):
+        return [("setup", "the scenario could not be set up: %s" % r["setup_fail"])]
+    for k, p in (r.get("panics") or {}).items():
+        bad.append(("crash", "thread %s panicked: %s" % (k, str(p)[:300])))
+    if r.get("stuck"):
+        bad.append(("stuck", "a thread was neither at a yield point nor finished: %s" % "; ".join(r["stuck"][:3])))
+    if r.get("truncated"):
+        bad.append(("no-termination", "300 steps did not finish the threads"))
+    acts, sts, created = r.get("acts") or {}, r.get("statuses") or {}, r.get("created") or []
+    noclear = bool(r.get("noclear"))
+    dels200 = {}
+    for k, a in acts.items():
+        kind, slot = a.split()
+        st = sts.get(k)
+        if k in (r.get("panics") or {}):
+            continue
+        if kind == "req" and st not in (200, 401):
+            bad.append(("status", "request thread %s ended with status %s" % (k, st)))
+        if kind == "del" and st not in (200, 409):
+            bad.append(("status", "DELETE thread %s ended with status %s" % (k, st)))
+        if kind == "del" and st == 200:
+            dels200[slot] = dels200.get(slot, 0) + 1
+    for slot, n in dels200.items():
+        if n > 1:
+            bad.append(("delete-twice", "%d DELETEs of session %s answered 200" % (n, slot)))
+    ej, dj, fin = r.get("ends_join") or {}, r.get("ended_join") or {}, r.get("ends_final") or {}
+    for sid in set(ej) | set(fin):
+        n = max(ej.get(sid, 0), fin.get(sid, 0))
+        if n > 1:
+            bad.append(("connend-twice", "ConnEnd delivered %d times for session %s" % (n, sid)))
+        if sid not in created:
+            bad.append(("connend-unknown", "ConnEnd for a session that was never created: %s" % sid))
+    for slot, sid in enumerate(created):
+        if fin.get(sid, 0) != 1:
+            bad.append(("connend-count", "after 3 timeouts of idleness ConnEnd was delivered %d times for session %d (%s); must be exactly once" % (fin.get(sid, 0), slot, sid)))
+    # the server calls in their real order: C20_serve_before_end and the exclusion of the session mutex, as executable checks
+    end_enter, end_exit, open_serves = {}, {}, {}
+    for e in r.get("events") or []:
+        sid, what = e.get("sid"), e.get("what")
+        if what == "end-enter":
+            end_enter.setdefault(sid, e["seq"])
+            inflight = [t for (t, s2) in open_serves if s2 == sid]
+            if inflight:
+                bad.append(("connend-while-request-in-server-call", "HandleConn(ConnEnd) of session %s was entered by %s while request thread(s) %s of that session were inside the server call (the session mutex excludes this); the ender owned %s"
+                            % (sid, _tn(e.get("tid")), ",".join(_tn(t) for t in inflight), e.get("holds"))))
+        elif what == "end-exit":
+            end_exit.setdefault(sid, e["seq"])
+        elif what == "serve-enter":
+            open_serves[(e.get("tid"), sid)] = e["seq"]
+            if sid in end_enter:
+                bad.append(("C20_serve_before_end", "request thread %s ran its server call (TryLock %s) on session %s AFTER that session's ConnEnd had been delivered (event %d > %d)%s; the request owned %s"
+                            % (_tn(e.get("tid")), e.get("name"), sid, e["seq"], end_enter[sid], " and after it had returned" if sid in end_exit else "", e.get("holds"))))
+        elif what in ("serve-exit", "serve-exit-locked"):
+            open_serves.pop((e.get("tid"), sid), None)
+    # the join: every thread has returned
+    locks = set(r.get("locks_join") or [])
+    for k, a in acts.items():
+        kind, slot = a.split()
+        slot = int(slot)
+        if kind != "req" or sts.get(k) != 200 or not (r.get("locked") or {}).get(k) or slot >= len(created):
+            continue
+        sid, name = created[slot], "w%s" % k
+        if not noclear and dj.get(sid, 0) >= 1 and name in locks:
+            bad.append(("hold-left-behind-by-in-flight-request", "session %d (%s) has ended (its ConnEnd has returned) and every request has returned, but the lock %r granted to its request thread %s is still held"
+                        % (slot, sid, name, k)))
+        if ej.get(sid, 0) == 0 and name not in locks:
+            bad.append(("hold-of-live-session-lost", "session %d (%s) has not ended but the lock %r granted to its request thread %s is no longer held" % (slot, sid, name, k)))
+    if r.get("keep") and created and ej.get(created[-1], 0) == 0 and "keep" not in locks:
+        bad.append(("hold-of-untouched-session-lost", "the session that was left alone has not ended but its lock is gone"))
+    if r.get("table_seen"):
+        for slot in r.get("table_join") or []:
+            if slot < len(created) and ej.get(created[slot], 0) > 0:
+                bad.append(("connend-for-live-session", "session %d is still in the gateway's table but its ConnEnd was delivered" % slot))
+    # after settling
+    if any(p != 401 for p in r.get("post") or []):
+        bad.append(("ended-cookie-accepted", "after 3 timeouts of idleness a request with a session's cookie was answered %s" % r.get("post")))
+    if not noclear and r.get("locks_left"):
+        bad.append(("holds-not-released", "every session has ended but the lock server still lists %s" % r["locks_left"]))
+    return bad
+
+
+def _tn(tid):
+    try:
+        tid = int(tid)
+    except (TypeError, ValueError):
+        return str(tid)
+    return ("the idle timer's function of session %d" % (tid - 1000)) if tid >= 1000 else ("u%d" % tid if tid >= 0 else "an unknown goroutine")
+
+
+def run_windows(ctx, sb, scenarios, tag="windows", timeout=300):
+    """Executes the searches. -> dict(results=[WResult], summaries={scenario: summary}, crashes=[dict(kind, id, scenario, path, partial, output)])"""
+    import os
+    import shutil
+    from lib.vcheck import sh
+    results, summaries, crashes = [], {}, []
+    todo, rnd = list(scenarios), 0
+    while todo and rnd < 3:
+        outdir = ctx.work / ("%s-%d" % (tag, rnd))
+        rnd += 1
+        shutil.rmtree(outdir, ignore_errors=True)
+        outdir.mkdir(parents=True)
+        f = outdir / "in.jsonl"
+        f.write_text("\n".join(json.dumps(s) for s in todo) + "\n")
+        env = dict(os.environ)
+        env.update({"RD_OUT": str(outdir), "RD_WINDOW": str(f), "RD_WATCHDOG": "8"})
+        rc, out = sh([str(sb["test_bin"]), "-test.run", "TestWindow$", "-test.timeout", "%ds" % timeout], cwd=outdir, env=env, timeout=timeout + 30)
+        p = outdir / "windows.jsonl"
+        if p.exists():
+            for line in p.read_text().splitlines():
+                try:
+                    o = json.loads(line)
+                except ValueError:
+                    continue
+                if o.get("summary"):
+                    summaries[o["scenario"]] = o
+                else:
+                    results.append(o)
+        if rc == 0:
+            break
+        # the process died inside one execution: name it, then go on with the scenarios behind it
+        started, done_ids, partial, hang = {}, set(), {}, False
+        try:
+            for line in (outdir / "progress.txt").read_text().splitlines():
+                ff = line.split(" ", 3)
+                if ff[0] == "W" and len(ff) == 4:
+                    started[ff[1]] = (ff[2], json.loads(ff[3]))
+                elif ff[0] == "D" and len(ff) >= 2:
+                    done_ids.add(ff[1])
+                elif ff[0] == "L" and len(ff) >= 3:
+                    partial[ff[1]] = json.loads(line.split(" ", 2)[2])
+                elif ff[0] == "HANG":
+                    hang = True
+        except Exception:  # noqa
+            pass
+        stuck = [i for i in started if i not in done_ids]
+        sid_ = stuck[-1] if stuck else None
+        scen = started[sid_][0] if sid_ else (todo[0]["id"] if todo else "?")
+        sc = next((x for x in todo if x["id"] == scen), None)
+        crashes.append(dict(kind="hang" if (hang or rc in (3, 124)) else "crash", id=sid_ or "?", scenario=sc, path=(partial.get(sid_) or {}).get("path") or (started[sid_][1] if sid_ else None),
+                            partial=partial.get(sid_), output=out[-2500:]))
+        ids = [x["id"] for x in todo]
+        todo = todo[ids.index(scen) + 1:] if scen in ids else []
+    return dict(results=results, summaries=summaries, crashes=crashes)
+
+
+def window_stage(ctx, sb=None, limit=3):
+    """Builds (unless the caller has the instrumented binary), runs the window searches, judges, reports. -> dict(ok_build, executed, failing)"""
+    tie = ctx.coverage.setdefault("ties", {}).setdefault(WTIE, {})
+    if sb is None:
+        sb = _c20.build_sched(_Sub(ctx))
+    if not sb.get("ok_window"):
+        why = sb.get("why") or "no inner yield point found in net/rest/rest.go"
+        ctx.note("%s unavailable on this tree: %s" % (WTIE, why))
+        tie.update({"status": "unavailable: " + why, "inner_yield_points_found_in_rest_go": len(sb.get("acq_sites") or [])})
+        return dict(ok_build=False, executed=0, failing=0)
+    quick = ctx.tier == "quick"
+    scs = window_scenarios(ctx.seed, quick)
+    # corpus first: recorded interleavings (kind "window": scenario + choice path), executed exactly once each
+    corpus = []
+    for c in _c20.load_kind_corpus("window"):
+        if isinstance(c.get("scenario"), dict) and c["scenario"].get("id"):
+            corpus.append(dict(c["scenario"], replay=True))
+    scs = corpus + scs
+    rr = run_windows(_Sub(ctx), sb, scs)
+    by_sc = {s["id"]: s for s in scs}
+    n = nf = 0
+    rules, sites_parked, preempt_max, tracking_off, reported = {}, {}, 0, 0, set()
+    for r in rr["results"]:
+        n += 1
+        preempt_max = max(preempt_max, r.get("preemptions", 0))
+        tracking_off += 1 if r.get("tracking_off") else 0
+        for sname, c in (r.get("sites") or {}).items():
+            sites_parked[sname] = sites_parked.get(sname, 0) + c
+        bad = window_oracle(r)
+        if not bad:
+            continue
+        nf += 1
+        for rule, _ in bad:
+            rules[rule] = rules.get(rule, 0) + 1
+        key = (r.get("scenario"), tuple(sorted(set(x[0] for x in bad))))
+        if limit > 0 and key not in reported:
+            reported.add(key)
+            limit -= 1
+            sc = dict(by_sc.get(r.get("scenario")) or {}, path=r.get("path"), replay=True)
+            ctx.violation({"kind": "window", "property": ctx.prop, "failed_checks": ["%s: %s" % x for x in bad], "scenario": sc,
+                           "schedule": ["%s: %s -> %s" % (st.get("t"), st.get("from", ""), st.get("to")) for st in r.get("steps") or []],
+                           "server_call_events": r.get("events"), "result": {k: v for k, v in r.items() if k not in ("steps", "events", "sites")}, "seed": ctx.seed,
+                           "replay_cmd": "bin/check %s --replay <this file>   (re-executes exactly this interleaving on the instrumented handler)" % ctx.prop},
+                          "an interleaving of request / DELETE / idle expiry on the real REST handler violates %s: %s (window run %s, %d steps, %d preemptions)"
+                          % (ctx.prop, "; ".join(sorted(set(x[0] for x in bad))[:4]), r.get("id"), len(r.get("steps") or []), r.get("preemptions", 0)),
+                          name="window_%s.json" % str(r.get("id")).replace(":", "_").replace("~", "_"))
+    for c in rr["crashes"]:
+        nf += 1
+        rule = "deadlock" if (c["kind"] == "hang" and c.get("partial")) else c["kind"]
+        rules[rule] = rules.get(rule, 0) + 1
+        sc = dict(c.get("scenario") or {}, path=c.get("path"), replay=True)
+        ctx.violation({"kind": "window", "property": ctx.prop, "failed_checks": [rule], "scenario": sc, "suspected_deadlock": (c.get("partial") or {}).get("suspected"),
+                       "schedule": ["%s: %s -> %s" % (st.get("t"), st.get("from", ""), st.get("to")) for st in (c.get("partial") or {}).get("steps") or []],
+                       "output": c["output"], "replay_cmd": "bin/check %s --replay <this file>" % ctx.prop},
+                      "the REST gateway %s in window run %s%s" % ("deadlocked (no thread can move; confirmed on the real mutexes: no progress on the wall clock)" if rule == "deadlock" else
+                                                                  ("made no progress on the wall clock" if c["kind"] == "hang" else "crashed (panic outside a handler goroutine)"),
+                                                                  c["id"], (": " + " ".join((c.get("partial") or {}).get("suspected") or [])) if c.get("partial") else ""),
+                      name="window_%s_%s.json" % (rule, str(c["id"]).replace(":", "_").replace("~", "_").replace("?", "x")))
+    inner = [x for x in sites_parked if x.startswith("A:")]
+    tie.update({"status": "ran", "inner_yield_points_found_in_rest_go": len(sb.get("acq_sites") or []), "inner_yield_points": sb.get("acq_sites"),
+                "inner_yield_points_at_which_a_thread_parked": len(inner), "harness_yield_points_inside_server_calls": sorted(x for x in sites_parked if x.startswith("H:")),
+                "model_anchors_missing_on_this_tree": len(sb.get("missing") or []),
+                "scenarios": len(scs), "corpus": len(corpus), "window_executions": n, "searches_exhausted_within_cap": sum(1 for k, s in rr["summaries"].items() if s.get("exhausted") and not k.startswith("corpus-")),
+                "searches_capped": sorted(k for k, s in rr["summaries"].items() if not s.get("exhausted")),
+                "executions_per_scenario": {k: s.get("executions") for k, s in sorted(rr["summaries"].items())},
+                "preemption_bound": 2, "max_preemptions_in_an_execution": preempt_max, "failing": nf, "failing_rules": rules,
+                "executions_in_which_the_lock_notes_lost_track_(suspected_deadlock_not_confirmed)": tracking_off,
+                "server_call_events_judged": sum(len(r.get("events") or []) for r in rr["results"]),
+                "oracle": "real order of the server calls: no request served after its session's ConnEnd (C20_serve_before_end), no ConnEnd entered while a request of the session is inside the server call; "
+                          "at the join: legal statuses, no hold of an ended session's request in LockServer.Locks(), holds of live sessions present, table vs ConnEnd; after settling: ConnEnd exactly once per session, "
+                          "nothing held, every cookie refused; no panic, no deadlock (confirmed on the real mutexes)"})
+    ctx.coverage["evaluations"] = ctx.coverage.get("evaluations", 0) + n
+    if isinstance(ctx.coverage.get("samples"), list) and len(ctx.coverage["samples"]) < 6:
+        for r in rr["results"]:
+            if r.get("scenario") == "req-del" and r.get("preemptions", 0) >= 1:
+                ctx.coverage["samples"].append({"window_run": r.get("id"), "schedule": ["%s: %s -> %s" % (st.get("t"), st.get("from", ""), st.get("to")) for st in r.get("steps") or []][:14],
+                                                "server_call_events": [(e.get("what"), e.get("tid"), e.get("holds")) for e in r.get("events") or []]})
+                break
+    return dict(ok_build=True, executed=n, failing=nf)
+
+
+def replay_window(ctx, d, sb=None):
+    """re-executes the interleaving of a replay file of kind "window" -> True"""
+    sc = d.get("scenario")
+    if not sc:
+        print("the replay file carries no scenario")
+        return True
+    if sb is None:
+        sb = _c20.build_sched(_Sub(ctx))
+    if not sb.get("ok_window"):
+        print("the instrumented handler cannot be built on this tree: %s" % sb.get("why"))
+        ctx.violation({"broken": "replay", "why": sb.get("why")}, "replay could not run", name="replay_failed.json", no_failing_input=True)
+        return True
+    sc = dict(sc, replay=True)
+    print("re-executing window scenario %s along the choice path %s on %s" % (sc.get("id"), sc.get("path"), sb.get("test_bin")))
+    rr = run_windows(_Sub(ctx), sb, [sc], tag="window-replay")
+    nbad = 0
+    for r in rr["results"]:
+        for st in r.get("steps") or []:
+            print("  %-8s %s -> %s" % (st.get("t"), st.get("from", ""), st.get("to")))
+        for e in r.get("events") or []:
+            print("  event %d (step %d): %s by %s on session %s %s owning %s" % (e["seq"], e["step"], e["what"], _tn(e.get("tid")), e.get("sid"), e.get("name") or "", e.get("holds")))
+        print(json.dumps({k: v for k, v in r.items() if k not in ("steps", "events", "sites")}))
+        bad = window_oracle(r)
+        print("  -> " + ("; ".join("%s: %s" % x for x in bad) if bad else "passes"))
+        nbad += 1 if bad else 0
+    for c in rr["crashes"]:
+        print("HANG/CRASH in %s: %s %s\n%s" % (c["id"], c["kind"], (c.get("partial") or {}).get("suspected"), c["output"][-1200:]))
+    if nbad or rr["crashes"]:
+        ctx.violation({"kind": "window", "scenario": sc, "failing_runs": nbad, "crashes": rr["crashes"]}, "the replayed interleaving still fails", name="replayed_window.json")
+    else:
+        print("verdict: the replayed interleaving passes on this tree")
+    ctx.coverage["samples"] = [{"replayed_window": sc.get("id"), "path": sc.get("path")}]
+    ctx.coverage["evaluations"] = len(rr["results"])
+    ctx.coverage["distinct_nontrivial"] = 1
+    ctx.coverage["rule"] = "replay of one recorded interleaving (window run)"
     return True
